@@ -53,6 +53,11 @@ def run_operator_case(case, prop, configs, weakly, want, nq=8, cinf_bounds=(5, 5
         qs[0] = gen.D4_QUERY
     via = 'parser' if rng.random() < 0.5 else 'api'
     style = rng.choice(['full', 'min'])
+    keys = None
+    if rng.random() < 0.25:      # bases whose keys are not 1..n (e.g. after deleting a conditional)
+        keys = sorted(rng.sample(range(0, 2 * len(conds) + 3), len(conds)))
+        if rng.random() < 0.3:
+            rng.shuffle(keys)
     res = {'evals': 0, 'nontrivial': [], 'violations': [], 'inconclusive': [], 'counters': {}}
     cnt = res['counters']
 
@@ -86,7 +91,7 @@ def run_operator_case(case, prop, configs, weakly, want, nq=8, cinf_bounds=(5, 5
         if system not in ref_by_sys:
             ref_by_sys[system] = [oracle_answer(setup, csys, system, qv, qf) for (qv, qf) in qtt]
         refs = ref_by_sys[system]
-        bb = impl.mk_bb(sig, conds, via=via, style=style)
+        bb = impl.mk_bb(sig, conds, keys=keys, via=via, style=style)
         queries = impl.mk_queries(qs)
         got = None
         try:
@@ -101,7 +106,7 @@ def run_operator_case(case, prop, configs, weakly, want, nq=8, cinf_bounds=(5, 5
             got = []
             for qi, q in enumerate(qs):
                 try:
-                    bb1 = impl.mk_bb(sig, conds, via=via, style=style)
+                    bb1 = impl.mk_bb(sig, conds, keys=keys, via=via, style=style)
                     got.append(impl.results(impl.ask(bb1, system, p, impl.mk_queries([q]), weakly=weakly))[0])
                 except BaseException as e1:  # noqa
                     if type(e1).__name__ == 'SoftTimeout':
@@ -144,6 +149,7 @@ def run_operator_case(case, prop, configs, weakly, want, nq=8, cinf_bounds=(5, 5
                 bump('rows_W_differs_from_Z')
             if l != w:
                 bump('rows_lex_differs_from_W')
+    bdesc['keys'] = keys
     res['sample'] = {'base': bdesc, 'mode': mode, 'family': fam, 'via': via,
                      'queries': [fml.cond_text(*q) for q in qs[:4]],
                      'definition_answers': {s: [r[0] for r in v[:4]] for s, v in ref_by_sys.items()}}
